@@ -70,9 +70,13 @@ def openArchive : M Archive := do
       pure { files, offset := archiveOffset, comment := footer.comment }
 
 /-- read.rs `ZipArchive::new`: the capacity handed to `Vec::with_capacity` / `HashMap::with_capacity` BEFORE any
-central header has been read: a declared count above the position of the end record is not trusted. -/
-def fileCapacity (numberOfFiles cdeStartPos : Nat) : Nat :=
-  if numberOfFiles > cdeStartPos then 0 else numberOfFiles
+central header has been read.  A central header occupies at least 46 bytes, so at most
+`(cde_start_pos - directory_start) / 46` of them fit between the start of the directory and the end record
+(`saturating_sub`: a directory declared to start behind the end record has room for none); a declared count above
+that is not trusted.  (Before the repair of the F1 finding the count was compared with `cde_start_pos` itself: one
+reserved slot - about 250 bytes of heap - per input BYTE.) -/
+def fileCapacity (numberOfFiles cdeStartPos directoryStart : Nat) : Nat :=
+  if numberOfFiles > (cdeStartPos - directoryStart) / 46 then 0 else numberOfFiles
 
 open M in
 /-- `ZipArchive::new` together with the pre-allocation it requests (`openArchive` is its first component:
@@ -83,7 +87,7 @@ def openArchiveAlloc : M (Archive × Nat) := do
     throw .unsupportedArchive
   else do
     let (archiveOffset, directoryStart, numberOfFiles) ← getDirectoryCounts footer cdeStart
-    let cap := fileCapacity numberOfFiles cdeStart
+    let cap := fileCapacity numberOfFiles cdeStart directoryStart
     let r ← attempt (seek (.start directoryStart))
     match r with
     | .error _ => throw .invalidArchive
